@@ -5,9 +5,417 @@ From TR Require Import model.Ring model.RingSpec model.Processor model.ProcAbs m
 Import ListNotations.
 Open Scope Z_scope.
 
+From Coq Require Import ZifyBool ZifyNat.
+
+(* ------------------------------------------------------------------ *)
+(* the trace as a direct recursion over the three machines              *)
+
+Fixpoint ztrace (c : pcfg) (a : astate) (cs : cstate) (ts : tstate) (evs : list ev)
+  : list (ev * list out) :=
+  match evs with
+  | [] => []
+  | e :: t =>
+    (e, snd (astep c a e) ++ snd (cstep c cs e) ++ snd (tstep ts e))
+      :: ztrace c (fst (astep c a e)) (fst (cstep c cs e)) (fst (tstep ts e)) t
+  end.
+
+Lemma combine_zip3_ztrace : forall c evs a cs ts,
+    combine evs (zip3 (arun c a evs) (crun c cs evs) (trun ts evs)) = ztrace c a cs ts evs.
+Proof.
+  intros c evs; induction evs as [|e t IH]; intros a cs ts.
+  - reflexivity.
+  - cbn [arun crun trun ztrace].
+    destruct (astep c a e) as [a' oa].
+    destruct (cstep c cs e) as [cs' oc].
+    destruct (tstep ts e) as [ts' ot].
+    cbn [zip3 combine fst snd]. rewrite IH. reflexivity.
+Qed.
+
+Lemma psteps_ztrace : forall c fm fc ft evs,
+    1 <= p_size c -> wf_ids 0 evs ->
+    psteps c fm fc ft evs = ztrace c (ainit fm) (cinit fc) (tinit ft) evs.
+Proof.
+  intros c fm fc ft evs Hsz Hwf.
+  unfold psteps, pinit.
+  rewrite prun_zip3, (mrun_arun c fm evs Hsz Hwf).
+  apply combine_zip3_ztrace.
+Qed.
+
+(* ------------------------------------------------------------------ *)
+(* outputs of the other two machines are invisible to the monitors      *)
+
+Definition noise (x : out) : bool :=
+  match x with Call SMotion _ _ => false | _ => true end.
+
+Lemma const_noise : forall l, forallb is_const_out l = true -> forallb noise l = true.
+Proof.
+  induction l as [|x l IH]; cbn [forallb]; intros H; [reflexivity|].
+  apply andb_true_iff in H as [Hx Hl]. rewrite (IH Hl), andb_true_r.
+  destruct x as [s ? ?| | | | |]; try discriminate; destruct s; try discriminate; reflexivity.
+Qed.
+
+Lemma test_noise : forall l, forallb is_test_out l = true -> forallb noise l = true.
+Proof.
+  induction l as [|x l IH]; cbn [forallb]; intros H; [reflexivity|].
+  apply andb_true_iff in H as [Hx Hl]. rewrite (IH Hl), andb_true_r.
+  destruct x as [s ? ?| | | | |]; try discriminate; destruct s; try discriminate; reflexivity.
+Qed.
+
+Lemma noise_writes : forall l, forallb noise l = true -> writes_of SMotion l = [].
+Proof.
+  induction l as [|x l IH]; cbn [forallb]; intros H; [reflexivity|].
+  apply andb_true_iff in H as [Hx Hl].
+  unfold writes_of in *. cbn [flat_map]. rewrite (IH Hl).
+  destruct x as [s k ?| | | | |]; try reflexivity.
+  destruct s; try discriminate; destruct k; reflexivity.
+Qed.
+
+Lemma noise_start : forall l, forallb noise l = true -> has_start_ok SMotion l = false.
+Proof.
+  induction l as [|x l IH]; cbn [forallb]; intros H; [reflexivity|].
+  apply andb_true_iff in H as [Hx Hl].
+  unfold has_start_ok in *. cbn [existsb]. rewrite (IH Hl), orb_false_r.
+  destruct x as [s k f| | | | |]; try reflexivity.
+  destruct s; try discriminate; destruct k; try reflexivity; destruct f; reflexivity.
+Qed.
+
+Lemma noise_stop : forall l, forallb noise l = true -> has_stop SMotion l = false.
+Proof.
+  induction l as [|x l IH]; cbn [forallb]; intros H; [reflexivity|].
+  apply andb_true_iff in H as [Hx Hl].
+  unfold has_stop in *. cbn [existsb]. rewrite (IH Hl), orb_false_r.
+  destruct x as [s k f| | | | |]; try reflexivity.
+  destruct s; try discriminate; destruct k; reflexivity.
+Qed.
+
+Lemma noise_s01 : forall l st, forallb noise l = true -> fold_left s01_out l st = st.
+Proof.
+  induction l as [|x l IH]; cbn [forallb fold_left]; intros st H; [reflexivity|].
+  apply andb_true_iff in H as [Hx Hl]. rewrite (IH _ Hl).
+  destruct x as [s k f| | | | |]; try reflexivity.
+  destruct s; try discriminate; destruct k; reflexivity.
+Qed.
+
+Lemma writes_of_app : forall s a b, writes_of s (a ++ b) = writes_of s a ++ writes_of s b.
+Proof. intros; unfold writes_of; apply flat_map_app. Qed.
+
+Lemma has_start_ok_app : forall s a b, has_start_ok s (a ++ b) = has_start_ok s a || has_start_ok s b.
+Proof. intros; unfold has_start_ok; apply existsb_app. Qed.
+
+Lemma has_stop_app : forall s a b, has_stop s (a ++ b) = has_stop s a || has_stop s b.
+Proof. intros; unfold has_stop; apply existsb_app. Qed.
+
+Lemma s02_step_noise : forall c st e o l,
+    forallb noise l = true -> s02_step c st (e, o ++ l) = s02_step c st (e, o).
+Proof.
+  intros c st e o l H. unfold s02_step.
+  rewrite writes_of_app, has_start_ok_app, has_stop_app.
+  rewrite (noise_writes l H), (noise_start l H), (noise_stop l H).
+  rewrite app_nil_r, !orb_false_r. reflexivity.
+Qed.
+
+Lemma s01_noise : forall st o l,
+    forallb noise l = true -> fold_left s01_out (o ++ l) st = fold_left s01_out o st.
+Proof. intros st o l H. rewrite fold_left_app. apply noise_s01; exact H. Qed.
+
+(* ------------------------------------------------------------------ *)
+(* runs of consecutive writes                                           *)
+
+Definition nowfp (x : out) : bool :=
+  match x with Call SMotion (Write _) true => false | _ => true end.
+
+Definition W (id : Z) : out := Call SMotion (Write id) false.
+
+Lemma write_pre_cons2 : forall x y r f,
+    write_pre (x :: y :: r) f =
+    let (failed, f') := pop f in
+    if failed then (false, f', [Call SMotion (Write x) true])
+    else let '(ok, f'', o) := write_pre (y :: r) f' in
+         (ok, f'', Call SMotion (Write x) false :: o).
+Proof. reflexivity. Qed.
+
+Lemma write_pre_ok : forall k lo f,
+    forallb nowfp (snd (write_pre (zseq lo (S k)) f)) = true ->
+    exists f', write_pre (zseq lo (S k)) f = (true, f', map W (zseq lo k)).
+Proof.
+  induction k as [|k IH]; intros lo f H.
+  - exists f. reflexivity.
+  - change (zseq lo (S (S k))) with (lo :: (lo + 1) :: zseq (lo + 1 + 1) k) in *.
+    rewrite write_pre_cons2 in *.
+    change ((lo + 1) :: zseq (lo + 1 + 1) k) with (zseq (lo + 1) (S k)) in *.
+    change (zseq lo (S k)) with (lo :: zseq (lo + 1) k).
+    destruct (pop f) as [failed f1].
+    destruct failed.
+    + cbn in H. discriminate.
+    + specialize (IH (lo + 1) f1).
+      destruct (write_pre (zseq (lo + 1) (S k)) f1) as [[ok f2] o] eqn:E.
+      cbn [snd forallb nowfp] in H.
+      destruct (IH H) as [f' Hf']. inversion Hf'; subst.
+      exists f'. reflexivity.
+Qed.
+
+Lemma writes_of_W : forall l, writes_of SMotion (map W l) = l.
+Proof.
+  induction l as [|x l IH]; [reflexivity|].
+  unfold writes_of in *. cbn [map flat_map W]. cbn [W] in IH. rewrite IH. reflexivity.
+Qed.
+
+Lemma start_W : forall l, has_start_ok SMotion (map W l) = false.
+Proof. induction l as [|x l IH]; [reflexivity|]. unfold has_start_ok in *. cbn. exact IH. Qed.
+
+Lemma stop_W : forall l, has_stop SMotion (map W l) = false.
+Proof. induction l as [|x l IH]; [reflexivity|]. unfold has_stop in *. cbn. exact IH. Qed.
+
+Lemma zseq_snoc : forall k lo, zseq lo k ++ [lo + Z.of_nat k] = zseq lo (S k).
+Proof.
+  induction k as [|k IH]; intros lo.
+  - cbn [zseq app Z.of_nat]. rewrite Z.add_0_r. reflexivity.
+  - change (zseq lo (S (S k))) with (lo :: zseq (lo + 1) (S k)).
+    change (zseq lo (S k)) with (lo :: zseq (lo + 1) k).
+    rewrite <- (IH (lo + 1)). cbn [app]. do 3 f_equal. lia.
+Qed.
+
+Lemma zlist_eq_refl : forall l, zlist_eq l l = true.
+Proof. induction l as [|x l IH]; [reflexivity|]. cbn [zlist_eq]. rewrite Z.eqb_refl, IH. reflexivity. Qed.
+
+Lemma last_zseq : forall k lo d, last (zseq lo (S k)) d = lo + Z.of_nat k.
+Proof.
+  intros k lo d. rewrite <- zseq_snoc. apply last_last.
+Qed.
+
+Lemma s01_run : forall k p ok,
+    fold_left s01_out (map W (zseq (p + 1) k)) (mk01 p false ok) = mk01 (p + Z.of_nat k) false ok.
+Proof.
+  induction k as [|k IH]; intros p ok.
+  - cbn [zseq map fold_left Z.of_nat]. rewrite Z.add_0_r. reflexivity.
+  - cbn [zseq map fold_left W s01_out s01_prev s01_first s01_ok].
+    rewrite Z.eqb_refl, andb_true_r.
+    change (Call SMotion (Write ?x) false) with (W x) in *.
+    fold W. rewrite IH. f_equal. lia.
+Qed.
+
+(* ------------------------------------------------------------------ *)
+(* the monitors on the outputs of a start event                          *)
+
+Definition start_pre : list out :=
+  [LMotion; WinQ true; Call SMotion Check false; Call SMotion Start false; LStarted].
+
+Lemma mon_start : forall c prev first open last id m w lo k post stopped,
+    (post = [] /\ stopped = false) \/
+    (exists f, post = [LEnded; Call SMotion Stop f] /\ stopped = true) ->
+    lo + Z.of_nat k = id ->
+    lo = Z.max (id - (p_size c - 1)) (last + 1) ->
+    open = false -> prev = last ->
+    let o := start_pre ++ map W (zseq lo (S k)) ++ post in
+    s02_step c (mk02 open last true) (EFrame id m w, o) = mk02 (negb stopped) id true /\
+    fold_left s01_out o (mk01 prev first true) = mk01 id false true.
+Proof.
+  intros c prev first open last id m w lo k post stopped Hpost Hid Hlo Hopen Hprev o.
+  subst open prev.
+  assert (Hw : writes_of SMotion o = zseq lo (S k)).
+  { unfold o. rewrite !writes_of_app, writes_of_W.
+    destruct Hpost as [[-> _]|[f [-> _]]]; cbn [start_pre writes_of flat_map app]; apply app_nil_r. }
+  assert (Hs : has_start_ok SMotion o = true) by reflexivity.
+  assert (Hp : has_stop SMotion o = stopped).
+  { unfold o. rewrite !has_stop_app, stop_W.
+    destruct Hpost as [[-> ->]|[f [-> ->]]]; reflexivity. }
+  split.
+  - unfold s02_step. rewrite Hw, Hs, Hp.
+    cbn [s02_open s02_last s02_ok negb orb andb].
+    rewrite <- Hlo.
+    replace (Z.to_nat (id - lo + 1)) with (S k) by lia.
+    rewrite zlist_eq_refl, last_zseq, Hid. reflexivity.
+  - unfold o. rewrite !fold_left_app.
+    cbn [start_pre fold_left s01_out s01_prev s01_first s01_ok].
+    change (zseq lo (S k)) with (lo :: zseq (lo + 1) k).
+    cbn [map fold_left W s01_out s01_prev s01_first s01_ok].
+    fold W. rewrite s01_run.
+    replace (last <? lo) with true by lia.
+    rewrite Hid.
+    destruct Hpost as [[-> _]|[f [-> _]]]; reflexivity.
+Qed.
+
+(* ------------------------------------------------------------------ *)
+(* invariant between the abstract machine and the two monitors           *)
+
+Definition Inv (a : astate) (st1 : s01) (st2 : s02) : Prop :=
+  a_mark a <= a_n a /\
+  s02_open st2 = a_rec a /\
+  s02_last st2 + 1 = (if a_rec a then a_n a else a_mark a) /\
+  s02_ok st2 = true /\
+  s01_prev st1 = s02_last st2 /\
+  (a_rec a = true -> s01_first st1 = false) /\
+  s01_ok st1 = true.
+
+Lemma ahistory_zseq : forall c mark id,
+    1 <= p_size c -> mark <= id ->
+    exists lo k, ahistory c mark id = zseq lo (S k) /\ lo + Z.of_nat k = id /\
+                 lo = Z.max (id - (p_size c - 1)) mark.
+Proof.
+  intros c mark id Hsz Hm. unfold ahistory.
+  exists (Z.max mark (id - p_size c + 1)), (Z.to_nat (id - Z.max mark (id - p_size c + 1))).
+  split; [|split]; try lia.
+  f_equal. lia.
+Qed.
+
+Local Arguments Z.add : simpl never.
+Local Arguments Z.sub : simpl never.
+Local Arguments Z.min : simpl never.
+Local Arguments Z.max : simpl never.
+Local Arguments Z.ltb : simpl never.
+Local Arguments Z.geb : simpl never.
+Local Arguments Z.eqb : simpl never.
+Local Arguments Z.to_nat : simpl never.
+Local Arguments zseq : simpl never.
+Local Arguments ahistory : simpl never.
+Local Arguments write_pre : simpl never.
+
+Ltac aproj := cbn [a_n a_mark a_rec a_fw a_wu a_trig a_faults andb negb fst snd] in *.
+
+Ltac fin :=
+  cbn [fst snd app] in *;
+  unfold Inv, s02_step, writes_of, has_start_ok, has_stop;
+  cbn;
+  repeat split; try lia; try (intros; discriminate); try (intros; lia).
+
+Lemma start_case : forall c first last n m w lo k f2 ok f3 ow failed post stopped,
+    write_pre (zseq lo (S k)) f2 = (ok, f3, ow) ->
+    forallb nowfp ((start_pre ++ ow) ++ [Call SMotion (Write n) failed] ++ post) = true ->
+    (post = [] /\ stopped = false) \/
+    (exists f, post = [LEnded; Call SMotion Stop f] /\ stopped = true) ->
+    lo + Z.of_nat k = n -> lo = Z.max (n - (p_size c - 1)) (last + 1) ->
+    let o := (start_pre ++ ow) ++ [Call SMotion (Write n) failed] ++ post in
+    ok = true /\
+    s02_step c (mk02 false last true) (EFrame n m w, o) = mk02 (negb stopped) n true /\
+    fold_left s01_out o (mk01 last first true) = mk01 n false true.
+Proof.
+  intros c first last n m w lo k f2 ok f3 ow failed post stopped Ew H Hpost Hid Hlo o.
+  rewrite !forallb_app in H.
+  apply andb_true_iff in H as [H H2]. apply andb_true_iff in H as [_ Hw].
+  apply andb_true_iff in H2 as [Hf _].
+  assert (failed = false) by (destruct failed; [discriminate|reflexivity]). subst failed.
+  assert (Hw' : forallb nowfp (snd (write_pre (zseq lo (S k)) f2)) = true)
+    by (rewrite Ew; exact Hw).
+  destruct (write_pre_ok _ _ _ Hw') as [f' E']. rewrite Ew in E'.
+  inversion E'; subst ok f3 ow. split; [reflexivity|].
+  assert (Ho : o = start_pre ++ map W (zseq lo (S k)) ++ post).
+  { unfold o. rewrite <- zseq_snoc, Hid, map_app, <- !app_assoc. reflexivity. }
+  rewrite Ho. apply mon_start; auto.
+Qed.
+
+Lemma step_inv : forall c a e st1 st2,
+    1 <= p_size c -> Inv a st1 st2 ->
+    match e with EFrame id _ _ => id = a_n a | _ => True end ->
+    forallb nowfp (snd (astep c a e)) = true ->
+    Inv (fst (astep c a e))
+        (fold_left s01_out (snd (astep c a e)) st1)
+        (s02_step c st2 (e, snd (astep c a e))).
+Proof.
+  intros c [n mark rec fw wu trig faults] e [prev first ok1] [open last ok2] Hsz HI He H.
+  unfold Inv in HI. cbn [a_n a_mark a_rec s02_open s02_last s02_ok s01_prev s01_first s01_ok] in HI.
+  destruct HI as (Hmn & Hopen & Hlast & Hok2 & Hprev & Hfirst & Hok1).
+  subst open ok2 ok1 prev.
+  destruct e as [id motion win| | |].
+  - subst id. unfold astep, aprocess in *. aproj.
+    destruct motion.
+    + destruct rec.
+      * rewrite (Hfirst eq_refl) in *. aproj.
+        destruct (pop faults) as [failed f'] eqn:Ep. aproj.
+        destruct (fw + 1 >=? Z.min (fw + p_min c) (p_max c)) eqn:Eg.
+        -- unfold astop in *. aproj.
+           destruct (pop f') as [failed2 f''] eqn:Ep2.
+           fin.
+        -- fin.
+      * destruct (trig + 1 <? p_trig c) eqn:Et; [aproj; fin|].
+        destruct win; [|aproj; fin]. cbn [negb] in *.
+        destruct (pop faults) as [cfail f1] eqn:Ep1.
+        destruct cfail; [aproj; fin|].
+        destruct (pop f1) as [sfail f2] eqn:Ep2.
+        destruct sfail; [aproj; fin|].
+        destruct (ahistory_zseq c mark n Hsz Hmn) as (lo & k & Hh & Hid & Hlo).
+        rewrite Hh in *.
+        destruct (write_pre (zseq lo (S k)) f2) as [[ok f3] ow] eqn:Ew.
+        aproj.
+        destruct (pop f3) as [failed f4] eqn:Ep3. aproj.
+        destruct (fw + 1 >=? (if ok then p_min c else wu)) eqn:Eg.
+        -- unfold astop in *. aproj.
+           destruct (pop f4) as [failed2 f5] eqn:Ep4. aproj.
+           change [LMotion; WinQ true; Call SMotion Check false; Call SMotion Start false; LStarted]
+             with start_pre in *.
+           destruct (start_case c first last n true true lo k f2 ok f3 ow failed
+                       [LEnded; Call SMotion Stop failed2] true Ew H) as (_ & E2 & E1);
+             [right; eauto|exact Hid|lia|].
+           rewrite E2, E1. unfold Inv; cbn. repeat split; try lia; intros; discriminate.
+        -- aproj.
+           change [LMotion; WinQ true; Call SMotion Check false; Call SMotion Start false; LStarted]
+             with start_pre in *.
+           destruct (start_case c first last n true true lo k f2 ok f3 ow failed
+                       [] false Ew H) as (_ & E2 & E1);
+             [left; auto|exact Hid|lia|].
+           rewrite E2, E1. unfold Inv; cbn. repeat split; try lia; intros; discriminate.
+    + aproj. destruct rec.
+      * rewrite (Hfirst eq_refl) in *. aproj.
+        destruct (pop faults) as [failed f'] eqn:Ep. aproj.
+        destruct (fw + 1 >=? wu) eqn:Eg.
+        -- unfold astop in *. aproj.
+           destruct (pop f') as [failed2 f''] eqn:Ep2.
+           fin.
+        -- fin.
+      * aproj. fin.
+  - unfold astep, astop in *. aproj. destruct rec; aproj.
+    + destruct (pop faults) as [failed f'] eqn:Ep. fin.
+    + fin.
+  - unfold astep, astop in *. aproj. destruct rec; aproj.
+    + destruct (pop faults) as [failed f'] eqn:Ep. fin.
+    + fin.
+  - unfold astep in *. destruct rec; fin.
+Qed.
+
+(* ------------------------------------------------------------------ *)
+(* the whole run                                                        *)
+
+Lemma wf_ids_step : forall c a e t,
+    wf_ids (a_n a) (e :: t) ->
+    match e with EFrame id _ _ => id = a_n a | _ => True end /\
+    wf_ids (a_n (fst (astep c a e))) t.
+Proof.
+  intros c a e t H. rewrite an_step.
+  destruct e as [id m w| | |]; cbn [wf_ids] in H.
+  - destruct H as [-> H]. split; [reflexivity|exact H].
+  - split; [exact I|exact H].
+  - split; [exact I|exact H].
+  - split; [exact I|exact H].
+Qed.
+
+Lemma run_inv : forall c evs a cs ts st1 st2,
+    1 <= p_size c -> Inv a st1 st2 -> wf_ids (a_n a) evs ->
+    forallb nowfp (flat_map snd (ztrace c a cs ts evs)) = true ->
+    s01_ok (fold_left s01_out (flat_map snd (ztrace c a cs ts evs)) st1) = true /\
+    s02_ok (fold_left (s02_step c) (ztrace c a cs ts evs) st2) = true.
+Proof.
+  intros c evs; induction evs as [|e t IH]; intros a cs ts st1 st2 Hsz HI Hwf H.
+  - cbn [ztrace flat_map fold_left]. unfold Inv in HI. tauto.
+  - cbn [ztrace flat_map fold_left snd] in *.
+    destruct (wf_ids_step c a e t Hwf) as [He Hwf'].
+    rewrite forallb_app in H. apply andb_true_iff in H as [He1 Ht].
+    rewrite forallb_app in He1. apply andb_true_iff in He1 as [Ha _].
+    assert (Hn : forallb noise (snd (cstep c cs e) ++ snd (tstep ts e)) = true).
+    { rewrite forallb_app, (const_noise _ (cstep_outs_const c cs e)),
+        (test_noise _ (tstep_outs_test ts e)). reflexivity. }
+    rewrite fold_left_app, (s01_noise _ _ _ Hn), (s02_step_noise _ _ _ _ _ Hn).
+    apply IH; auto.
+    apply step_inv; auto.
+Qed.
+
 Theorem S01_S02_hold : forall c fm fc ft evs,
     1 <= p_size c -> wf_ids 0 evs ->
     let tr := psteps c fm fc ft evs in
     nowf tr = true ->
     S01 tr = true /\ S02 c tr = true.
-Admitted.
+Proof.
+  intros c fm fc ft evs Hsz Hwf tr H.
+  unfold tr, S01, S02, nowf in *.
+  rewrite (psteps_ztrace c fm fc ft evs Hsz Hwf) in *.
+  apply run_inv; auto.
+  unfold Inv, ainit; cbn. repeat split; try lia.
+Qed.
